@@ -11,6 +11,8 @@ import (
 	"sync"
 	"sync/atomic"
 	"time"
+
+	"golang.org/x/tools/go/ssa"
 )
 
 func main() {
@@ -88,6 +90,7 @@ func main() {
 					}
 				}
 			}
+			keys = eng.withDependencies(keys)
 			rs := eng.verifyAll(keys, *tier, false, "", "")
 			if err := eng.recordLocals(keys); err != nil {
 				fmt.Fprintln(os.Stderr, err)
@@ -304,8 +307,56 @@ func (e *Engine) checkProperty(prop, tier string, verbose bool, dump string, loa
 		fmt.Printf("gvc: no contract is tagged with property %s\n", prop)
 		return 2
 	}
+	keys = e.withDependencies(keys)
 	rs := e.verifyAll(keys, tier, verbose, dump, "")
 	return e.finish(prop, tier, rs, verbose, loadS, t0)
+}
+
+// withDependencies adds the contracts the selected functions rely on: a caller is verified
+// against its callees' contracts, so a property's check is complete only when the functions
+// under contract that its functions call (directly, or through module functions without
+// contract, closures included) are verified in the same run.
+func (e *Engine) withDependencies(keys []string) []string {
+	have := map[string]bool{}
+	for _, k := range keys {
+		have[k] = true
+	}
+	seen := map[*ssa.Function]bool{}
+	var visit func(fn *ssa.Function, depth int)
+	visit = func(fn *ssa.Function, depth int) {
+		// (two calls deep: the callees a proof uses directly and theirs; following the whole
+		// call graph from functions like Open would pull in every contract for every property)
+		if fn == nil || seen[fn] || depth > 2 {
+			return
+		}
+		seen[fn] = true
+		if isForeign(fn) {
+			return
+		}
+		if k, ct := e.contractFor(fn); ct != nil && !ct.Trusted && e.fnByKey[k] != nil && !have[k] {
+			have[k] = true
+			keys = append(keys, k)
+		}
+		for _, b := range fn.Blocks {
+			for _, ins := range b.Instrs {
+				switch x := ins.(type) {
+				case ssa.CallInstruction:
+					switch c := x.Common().Value.(type) {
+					case *ssa.Function:
+						visit(c, depth+1)
+					case *ssa.MakeClosure:
+						visit(c.Fn.(*ssa.Function), depth)
+					}
+				case *ssa.MakeClosure:
+					visit(x.Fn.(*ssa.Function), depth)
+				}
+			}
+		}
+	}
+	for _, k := range append([]string(nil), keys...) {
+		visit(e.fnByKey[k], 0)
+	}
+	return keys
 }
 
 func jsonWrite(path string, v interface{}) error {
